@@ -7,6 +7,8 @@
 pub mod util;
 
 #[cfg(kani)]
+mod c04;
+#[cfg(kani)]
 mod c05;
 #[cfg(kani)]
 mod c07;
